@@ -170,7 +170,7 @@ class RustFile:
         `struct X;`).  Returns dict(start, header_start, body_open, end, attrs)."""
         lo, hi = region or (0, len(self.src))
         if kind == 'macro_rules':
-            pat = r'macro_rules!\s+' + re.escape(name) + r'\b'
+            pat = r'macro_rules\s*!\s*' + re.escape(name) + r'\b'
         elif kind == 'impl':
             pat = r'\bimpl\b(?:\s*<[^{]*?>)?\s+' + name + r'\s*(?:where[^{]*)?\{'
         else:
